@@ -141,6 +141,43 @@ class RdmsOps:
         self.pool.report(prop, 'rdms_twin.raises', f'{opname}:raises:{type(e).__name__}',
                          f'{opname} raised {type(e).__name__}: {e} on admissible arguments')
 
+    def _plain_guard(self, opname, **named):
+        """the caller's own lists / arrays handed to an operation (values to select, a new order, a permutation): unchanged by
+        the call, and not wired into any object -- the caller reusing its list afterwards must not reach a result"""
+        from .fp import fp_value
+        if self.pool.prop != 'C12':
+            return lambda outcome='returned': None       # (the argument clause belongs to C12)
+        held = {k: v for k, v in named.items() if isinstance(v, (list, np.ndarray)) and len(v) > 0}
+        snaps = {k: (type(v).__name__, getattr(v, 'dtype', None), fp_value(v)) for k, v in held.items()}
+
+        def after(outcome='returned'):
+            for k, v in held.items():
+                if (type(v).__name__, getattr(v, 'dtype', None), fp_value(v)) != snaps[k]:
+                    self.pool.report('C12', 'plain_argument', f'argument-changed:{opname}:{k}:{outcome}',
+                                     f'{opname} changed the caller\'s {k} from {snaps[k][2]} to {fp_value(v)}')
+                else:
+                    self.ctx.probe('plain_argument_kept:' + opname)
+            if outcome != 'returned':
+                return
+            edited = False
+            for k, v in held.items():
+                try:
+                    if len(v) > 1 and norm(v[0]) != norm(v[-1]):
+                        first = v[0]
+                        v[0] = v[-1]
+                        v[-1] = first
+                        edited = True
+                    elif isinstance(v, list):
+                        v.append(v[0])
+                        edited = True
+                except (ValueError, TypeError):
+                    pass          # read-only array
+            self._n_edits = getattr(self, '_n_edits', 0) + 1
+            if edited and self._n_edits % 2 == 0:
+                self.pool.sweep(f'{opname}:caller-edits-own-argument')
+                self.ctx.probe('caller_edit_swept:' + opname)
+        return after
+
     def _finish(self, opname, res_obj, sem, parents, order=('seq', 'seq'), args=()):
         s = self.pool.add(res_obj, 'rdms', sem, opname, parents)
         self.pool.check_rdms(s, opname, order=order)
@@ -245,14 +282,17 @@ class RdmsOps:
                 listed = listed + [ab]         # a value no RDM carries selects nothing (whatever it would truncate to)
                 self.ctx.probe('absent_value_in_list')
         arg = vals[0] if (len(listed) == 1 and o['flag']) else (np.array(listed) if o['flag2'] else list(listed))
+        guard = self._plain_guard('subset', value=arg)
         try:
             res = src.obj.subset(self._byarg(by, o), arg)
         except Exception as e:
+            guard('raised')
             return self._raise('subset', e)
         sem = None
         if src.sem is not None:
             sem = {**src.sem, 'ru': [u for u, g in zip(src.sem['ru'], gv) if g in vals], 'cu': list(src.sem['cu'])}
         self._finish('subset', res, sem, [src.sid])
+        guard()
 
     def op_subsample(self, o):
         src = self.pick(o)
@@ -264,9 +304,11 @@ class RdmsOps:
         if o['flag'] and o['a'][3] % 3 == 0:
             vals = vals[:1]
             arg = vals[0]          # a scalar value (int or multi-character string)
+        guard = self._plain_guard('subsample', value=arg)
         try:
             res = src.obj.subsample(self._byarg(by, o), arg)
         except Exception as e:
+            guard('raised')
             return self._raise('subsample', e)
         sem = None
         if src.sem is not None:
@@ -275,6 +317,7 @@ class RdmsOps:
                 ru += [u for u, g in zip(src.sem['ru'], gv) if g == v]
             sem = {**src.sem, 'ru': ru, 'cu': list(src.sem['cu'])}
         self._finish('subsample', res, sem, [src.sid], order=('multiset', 'seq'))
+        guard()
 
     def op_subset_pattern(self, o):
         src = self.pick(o)
@@ -291,14 +334,17 @@ class RdmsOps:
         arg = vals[0] if (len(listed) == 1 and o['flag']) else (np.array(listed) if o['flag2'] else list(listed))
         if isinstance(arg, str):
             arg = [arg]     # a bare string is iterated character-wise by the library: pass strings in a list
+        guard = self._plain_guard('subset_pattern', value=arg)
         try:
             res = src.obj.subset_pattern(self._byarg(by, o), arg)
         except Exception as e:
+            guard('raised')
             return self._raise('subset_pattern', e)
         sem = None
         if src.sem is not None:
             sem = {**src.sem, 'ru': list(src.sem['ru']), 'cu': [u for u, g in zip(src.sem['cu'], gv) if g in vals]}
         self._finish('subset_pattern', res, sem, [src.sid])
+        guard()
 
     def op_subsample_pattern(self, o):
         src = self.pick(o)
@@ -307,9 +353,11 @@ class RdmsOps:
         by = self._by(src.obj, 'pattern', o['a'][0])
         gv, vals = self._values(src.obj, 'pattern', by, o, True)
         arg = np.array(vals) if o['flag2'] else list(vals)
+        guard = self._plain_guard('subsample_pattern', value=arg)
         try:
             res = src.obj.subsample_pattern(self._byarg(by, o), arg)
         except Exception as e:
+            guard('raised')
             return self._raise('subsample_pattern', e)
         sem = None
         if src.sem is not None:
@@ -318,6 +366,7 @@ class RdmsOps:
                 cu += [u for u, g in zip(src.sem['cu'], gv) if g == v]
             sem = {**src.sem, 'ru': list(src.sem['ru']), 'cu': cu}
         self._finish('subsample_pattern', res, sem, [src.sid], order=('seq', 'multiset'))
+        guard()
 
     def op_copy(self, o):
         src = self.pick(o)
@@ -469,8 +518,10 @@ class RdmsOps:
         r = random.Random(o['a'][0])
         p = list(range(n))
         r.shuffle(p)
+        parg = None if o['flag'] else np.array(p)      # (documented as numpy.ndarray)
+        guard = self._plain_guard('permute_rdms', p=parg)
         try:
-            res = permute_rdms(src.obj, p=None if o['flag'] else np.array(p))
+            res = permute_rdms(src.obj, p=parg)
             if o['flag']:
                 p = [int(x) for x in np.argsort(res.descriptors['p_inv'])]     # the permutation the RNG seam served
         except Exception as e:
@@ -479,6 +530,7 @@ class RdmsOps:
         if src.sem is not None:
             sem = {**src.sem, 'ru': list(src.sem['ru']), 'cu': [src.sem['cu'][i] for i in p]}
         s = self._finish('permute_rdms', res, sem, [src.sid])
+        guard()
         if o['flag2'] and s.alive:
             try:
                 back = inverse_permute_rdms(s.obj)
@@ -697,15 +749,18 @@ class RdmsOps:
         r = random.Random(o['a'][0])
         p = list(range(n))
         r.shuffle(p)
-        arg = np.array(p) if o['flag'] else p
+        arg = np.array(p) if o['flag'] else list(p)
+        guard = self._plain_guard('reorder', new_order=arg)
         try:
             t.obj.reorder(arg)
         except Exception as e:
+            guard('raised')
             return self._raise('reorder', e)
         if t.sem is not None:
             t.sem['cu'] = [t.sem['cu'][i] for i in p]
         self.pool.check_rdms(t, 'reorder')
         self.pool.sweep('reorder', target=t.sid, inplace=True)
+        guard()
         self.ctx.behaviour('reorder', t.op)
 
     def op_sort_by_alpha(self, o):
@@ -742,14 +797,17 @@ class RdmsOps:
         new = list(vals)
         r.shuffle(new)
         arg = np.array(new) if o['flag2'] else list(new)
+        guard = self._plain_guard('sort_by', order=arg)
         try:
             t.obj.sort_by(reindex=o['flag'], **{by: arg})
         except Exception as e:
+            guard('raised')
             return self._raise('sort_by_list', e)
         if t.sem is not None:
             t.sem['cu'] = [t.sem['cu'][vals.index(v)] for v in new]
         self.pool.check_rdms(t, 'sort_by_list')
         self.pool.sweep('sort_by', target=t.sid, inplace=True)
+        guard()
         self.ctx.behaviour('sort_by_list', t.op, by)
 
     def op_append(self, o):
